@@ -1,8 +1,227 @@
-import CkbVerif.Model.Freezer
+import CkbVerif.Lemmas.Freezer
+
+/-!
+# C09 — the freezer never loses or corrupts a frozen item, whatever crash interrupts it
+
+Model: `CkbVerif/Model/Freezer.lean` (the executable definitions the `ckbmodel C09` driver runs and
+the harness compares with the real `FreezerFiles`).  `Good d items` says the disk `d` holds exactly
+`items` (index clean, every item's bytes where its index entry says, head file ends at the last
+offset); `HandleOk h d` says the in-memory handle agrees with the disk.
+
+The theorems are about the *repaired* repair loop (`openWith true`, the code after the `fix:`
+commit); `open_unfixed_loses_items` keeps the witness for the loop as it was.
+-/
 namespace CkbVerif.C09
 open CkbVerif.Freezer
 
-theorem setFile_same' (f : Nat → Bytes) (id : Nat) (b : Bytes) : setFile f id b id = b := by
-  simp
+/-! ## single operations -/
+
+/-- Opening a fresh directory gives an empty, usable freezer. -/
+theorem open_empty : ∃ h d, «open» emptyDisk = some (h, d) ∧ Good d [] ∧ HandleOk h d := by
+  refine ⟨_, _, rfl, ⟨rfl, ?_, ?_⟩, rfl, ?_⟩
+  · simp [RChain]
+  · intro e rest hr; simp at hr; obtain ⟨rfl, _⟩ := hr; rfl
+  · intro e rest hr; simp at hr; obtain ⟨rfl, _⟩ := hr; exact ⟨rfl, rfl⟩
+
+/-- Re-opening a consistent disk succeeds and changes nothing. -/
+theorem reopen_good {d : Disk} {items : List Bytes} (g : Good d items) :
+    ∃ h d2, «open» d = some (h, d2) ∧ Good d2 items ∧ HandleOk h d2 := by
+  obtain ⟨h, ho, hh⟩ := open_good_aux (fixed := true) g
+  exact ⟨h, _, ho, g.set_tail, hh⟩
+
+/-- Appending keeps the disk consistent, with the new item last (same file or rollover). -/
+theorem append_good (max : Nat) {h : Handle} {d : Disk} {items : List Bytes} (x : Bytes)
+    (g : Good d items) (hk : HandleOk h d) :
+    Good (append max h d x).2 (items ++ [x]) ∧ HandleOk (append max h d x).1 (append max h d x).2 :=
+  append_good_aux x g hk
+
+/-- Every stored item is returned byte-for-byte … -/
+theorem retrieve_stored {h : Handle} {d : Disk} {items : List Bytes}
+    (g : Good d items) (hk : HandleOk h d) (i : Nat) (it : Bytes) (hi : 1 ≤ i)
+    (hit : items[i - 1]? = some it) : retrieve h d i = .some it :=
+  retrieve_good_aux g hk i it hi hit
+
+/-- … and nothing else is (item 0 and items beyond the end read `None`, never an error). -/
+theorem retrieve_absent {h : Handle} {d : Disk} {items : List Bytes}
+    (g : Good d items) (hk : HandleOk h d) (i : Nat) (hi : i = 0 ∨ items.length < i) :
+    retrieve h d i = .none :=
+  retrieve_none_aux g hk i hi
+
+/-- `truncate k` keeps exactly the first `k` items (and is a no-op outside `1 ≤ k < count`). -/
+theorem truncate_good {h : Handle} {d : Disk} {items : List Bytes}
+    (g : Good d items) (hk : HandleOk h d) (k : Nat) :
+    (1 ≤ k ∧ k < items.length →
+      Good (truncate h d k).2 (items.take k) ∧ HandleOk (truncate h d k).1 (truncate h d k).2) ∧
+    (¬ (1 ≤ k ∧ k < items.length) → truncate h d k = (h, d)) := by
+  constructor
+  · intro ⟨h1, h2⟩; exact truncate_good_aux g hk k h1 h2
+  · intro hn
+    apply truncate_noop_aux
+    have := g.idx_length
+    rw [hk.1]; omega
+
+/-- A crash cut of an append is admissible when the index is not shorter than before the append
+    and, if the item went into the existing head file, the earlier items' bytes are still there;
+    a missing data file is possible only for a freshly rolled head. -/
+def CutOk (max : Nat) (h : Handle) (d : Disk) (x : Bytes) (il : Nat) (fl : Option Nat) : Prop :=
+  d.idxSize ≤ il ∧
+  (∀ m, fl = some m → ¬ (h.headBytes + x.length > max) → h.headBytes ≤ m) ∧
+  (fl = none → h.headBytes + x.length > max)
+
+instance (max h d x il fl) : Decidable (CutOk max h d x il fl) := by
+  unfold CutOk
+  cases fl with
+  | none => simp only [reduceCtorEq, false_implies, implies_true, true_and, forall_const]; infer_instance
+  | some m =>
+    simp only [Option.some.injEq, forall_eq', reduceCtorEq, false_implies, and_true]
+    infer_instance
+
+/-- **Crash safety of one append** (every cut, including right at a rollover): re-opening succeeds
+    and yields `items` or `items ++ [x]`, the latter whenever index entry and data are complete. -/
+theorem crash_cut_open (max : Nat) {h : Handle} {d : Disk} {items : List Bytes} (x : Bytes)
+    (g : Good d items) (hk : HandleOk h d) (il : Nat) (fl : Option Nat) (hc : CutOk max h d x il fl) :
+    ∃ h2 d2, «open» (applyCut (append max h d x).2 il (append max h d x).1.headId fl) = some (h2, d2) ∧
+      HandleOk h2 d2 ∧ (Good d2 items ∨ Good d2 (items ++ [x])) ∧
+      ((append max h d x).2.idxSize ≤ il → (∃ m, fl = some m ∧ (append max h d x).1.headBytes ≤ m) →
+        Good d2 (items ++ [x])) :=
+  crash_cut_open_aux x g hk il fl hc.1 hc.2.1 hc.2.2
+
+/-! ## every history -/
+
+inductive Op where
+  | append (x : Bytes)
+  | truncate (k : Nat)
+  | reopen
+  /-- an append cut short by a crash (index left at `il` bytes, data file at `fl`), then re-open -/
+  | crashAppend (x : Bytes) (il : Nat) (fl : Option Nat)
+
+structure Sys where
+  h : Handle
+  d : Disk
+
+/-- one step of the system; `none` = a re-open failed -/
+def step (max : Nat) (s : Sys) : Op → Option Sys
+  | .append x => some ⟨(append max s.h s.d x).1, (append max s.h s.d x).2⟩
+  | .truncate k => some ⟨(truncate s.h s.d k).1, (truncate s.h s.d k).2⟩
+  | .reopen => («open» s.d).map fun r => ⟨r.1, r.2⟩
+  | .crashAppend x il fl =>
+    if CutOk max s.h s.d x il fl then
+      («open» (applyCut (append max s.h s.d x).2 il (append max s.h s.d x).1.headId fl)).map
+        fun r => ⟨r.1, r.2⟩
+    else some s
+
+def run (max : Nat) : Sys → List Op → Option Sys
+  | s, [] => some s
+  | s, op :: ops => (step max s op).bind fun s' => run max s' ops
+
+/-- what the item list may be after a step (the specification: a plain list) -/
+def SpecStep (max : Nat) (s : Sys) (items : List Bytes) : Op → List Bytes → Prop
+  | .append x, items' => items' = items ++ [x]
+  | .truncate k, items' => items' = if 1 ≤ k ∧ k < items.length then items.take k else items
+  | .reopen, items' => items' = items
+  | .crashAppend x il fl, items' =>
+    if CutOk max s.h s.d x il fl then
+      (items' = items ∨ items' = items ++ [x]) ∧
+      ((append max s.h s.d x).2.idxSize ≤ il →
+        (∃ m, fl = some m ∧ (append max s.h s.d x).1.headBytes ≤ m) → items' = items ++ [x])
+    else items' = items
+
+def Inv (s : Sys) (items : List Bytes) : Prop := Good s.d items ∧ HandleOk s.h s.d
+
+theorem step_inv (max : Nat) (s : Sys) (items : List Bytes) (op : Op) (hi : Inv s items) :
+    ∃ s' items', step max s op = some s' ∧ SpecStep max s items op items' ∧ Inv s' items' := by
+  cases op with
+  | append x => exact ⟨_, _, rfl, rfl, append_good max x hi.1 hi.2⟩
+  | truncate k =>
+    by_cases hk : 1 ≤ k ∧ k < items.length
+    · exact ⟨_, _, rfl, by simp [SpecStep, hk], (truncate_good hi.1 hi.2 k).1 hk⟩
+    · refine ⟨_, items, rfl, by simp [SpecStep, hk], ?_⟩
+      rw [(truncate_good hi.1 hi.2 k).2 hk]; exact hi
+  | reopen =>
+    obtain ⟨h, d2, ho, hg, hh⟩ := reopen_good hi.1
+    exact ⟨⟨h, d2⟩, items, by simp [step, ho], rfl, hg, hh⟩
+  | crashAppend x il fl =>
+    by_cases hc : CutOk max s.h s.d x il fl
+    · obtain ⟨h2, d2, ho, hh, hg, hfull⟩ := crash_cut_open max x hi.1 hi.2 il fl hc
+      by_cases hw : (append max s.h s.d x).2.idxSize ≤ il ∧
+          (∃ m, fl = some m ∧ (append max s.h s.d x).1.headBytes ≤ m)
+      · exact ⟨⟨h2, d2⟩, items ++ [x], by simp [step, hc, ho],
+          by show (if CutOk max s.h s.d x il fl then _ else _); rw [if_pos hc]; exact ⟨Or.inr rfl, fun _ _ => rfl⟩,
+          hfull hw.1 hw.2, hh⟩
+      · rcases hg with hg | hg
+        · exact ⟨⟨h2, d2⟩, items, by simp [step, hc, ho],
+            by show (if CutOk max s.h s.d x il fl then _ else _); rw [if_pos hc]; exact ⟨Or.inl rfl, fun a b => absurd ⟨a, b⟩ hw⟩,
+            hg, hh⟩
+        · exact ⟨⟨h2, d2⟩, items ++ [x], by simp [step, hc, ho],
+            by show (if CutOk max s.h s.d x il fl then _ else _); rw [if_pos hc]; exact ⟨Or.inr rfl, fun _ _ => rfl⟩, hg, hh⟩
+    · exact ⟨s, items, by simp [step, hc], by simp [SpecStep, hc], hi⟩
+
+/-- the specification lifted to op sequences -/
+inductive SpecRun (max : Nat) : Sys → List Bytes → List Op → Sys → List Bytes → Prop
+  | nil (s items) : SpecRun max s items [] s items
+  | cons {s items op s' items' ops s'' items''} :
+      step max s op = some s' → SpecStep max s items op items' →
+      SpecRun max s' items' ops s'' items'' → SpecRun max s items (op :: ops) s'' items''
+
+/-- **Every history**: from any consistent state, any sequence of appends, truncations, re-opens and
+    crash-cut appends runs without a failed open, follows the list specification, and ends in a
+    consistent state (so `retrieve_stored` / `retrieve_absent` apply to it). -/
+theorem history_inv (max : Nat) : ∀ (ops : List Op) (s : Sys) (items : List Bytes), Inv s items →
+    ∃ s' items', run max s ops = some s' ∧ SpecRun max s items ops s' items' ∧ Inv s' items'
+  | [], s, items, hi => ⟨s, items, rfl, .nil s items, hi⟩
+  | op :: ops, s, items, hi => by
+    obtain ⟨s1, items1, hs, hsp, hi1⟩ := step_inv max s items op hi
+    obtain ⟨s2, items2, hr, hsr, hi2⟩ := history_inv max ops s1 items1 hi1
+    exact ⟨s2, items2, by simp [run, hs, hr], .cons hs hsp hsr, hi2⟩
+
+/-- From the empty directory: after any history, the items are a list `items'` allowed by the
+    specification and every one of them reads back byte-for-byte. -/
+theorem history_from_empty (max : Nat) (ops : List Op) :
+    ∃ h d, «open» emptyDisk = some (h, d) ∧
+    ∃ s' items', run max ⟨h, d⟩ ops = some s' ∧ SpecRun max ⟨h, d⟩ [] ops s' items' ∧
+      (∀ i it, 1 ≤ i → items'[i - 1]? = some it → retrieve s'.h s'.d i = .some it) ∧
+      (∀ i, i = 0 ∨ items'.length < i → retrieve s'.h s'.d i = .none) := by
+  obtain ⟨h, d, ho, hg, hh⟩ := open_empty
+  obtain ⟨s', items', hr, hs, hi⟩ := history_inv max ops ⟨h, d⟩ [] ⟨hg, hh⟩
+  exact ⟨h, d, ho, s', items', hr, hs,
+    fun i it h1 h2 => retrieve_stored hi.1 hi.2 i it h1 h2,
+    fun i h1 => retrieve_absent hi.1 hi.2 i h1⟩
+
+/-! ## non-vacuity and regression witnesses (kernel-evaluated on the executable model) -/
+
+/-- three items in file 0 and a fourth rolled into file 1 (max 50, 15-byte items) -/
+def demoOps : List Op :=
+  [.append (List.replicate 15 1), .append (List.replicate 15 2), .append (List.replicate 15 3),
+   .append (List.replicate 15 4)]
+
+def demoSys : Sys := ⟨{ number := 1, headId := 0, headBytes := 0, cache := [0] },
+  { idx := [⟨0, 0⟩], tail := 0, files := fun _ => [] }⟩
+
+/-- the history above really rolls over and all four items read back -/
+example : ((run 50 demoSys demoOps).map fun s =>
+    (s.d.idx, retrieve s.h s.d 1, retrieve s.h s.d 4)) =
+    some ([⟨0, 0⟩, ⟨0, 15⟩, ⟨0, 30⟩, ⟨0, 45⟩, ⟨1, 15⟩],
+          .some (List.replicate 15 1), .some (List.replicate 15 4)) := by decide
+
+/-- the disk after the fourth append's index entry reached the disk but its data did not -/
+def demoCrashDisk : Disk :=
+  let s := (run 50 demoSys demoOps).getD demoSys
+  applyCut s.d (12 * 5) 1 none
+
+/-- the repaired loop slips back into file 0 and keeps the three fully written items -/
+theorem open_fixed_keeps_items :
+    ((openWith true demoCrashDisk).map fun r => (r.1.number, r.1.headId, retrieve r.1 r.2 3)) =
+      some (4, 0, .some (List.replicate 15 3)) := by decide
+
+/-- the loop as it was (re-opening the dropped entry's file) discards every item: the defect
+    repaired by the `fix:` commit in /repo (freezer/src/freezer_files.rs) -/
+theorem open_unfixed_loses_items :
+    ((openWith false demoCrashDisk).map fun r => (r.1.number, retrieve r.1 r.2 1)) =
+      some (1, .none) := by decide
+
+/-- the translated constants are the ones the index layout needs: a 4-byte file id and an 8-byte
+    offset make a 12-byte entry -/
+theorem entry_layout : Gen.Freezer.INDEX_ENTRY_SIZE = Gen.Freezer.FILE_ID_BYTES / 8 + 8 ∧
+    0 < Gen.Freezer.INDEX_ENTRY_SIZE := by decide
 
 end CkbVerif.C09
